@@ -26,7 +26,8 @@ RULE = (
     "commands, at least 2 blocks per channel and one of {QLPC, BITSHIFT>0, BLOCKSIZE, ZERO, multi-channel}."
 )
 ASSUMPTIONS = [
-    "sample types are the ones that occur in SPHERE files: S16HL (type 3), S16LH (5) and lossless mu-law AU2 (8); "
+    "sample types are the ones that occur in SPHERE files: S16HL (type 3), S16LH (5) and lossless mu-law AU2 (8) and, in a seventh of the programs, "
+    "shorten's original mu-law type AU1 (0), whose code order is the first row of shorten's ulaw_outward table; "
     "the SPHERE header's sample_byte_format / sample_coding agree with the shorten type",
     "mu-law streams use bit shift 0 only (a non-zero shift needs shorten's lossy 'outward' tables); BITSHIFT 0 is still emitted for them",
     "QLPC is used only in blocks of at least nwrap = max(3, maxnlpc) samples (statement: blocks no shorter than the predictor history); "
@@ -44,7 +45,7 @@ ASSUMPTIONS = [
 CMDS = ("DIFF0", "DIFF1", "DIFF2", "DIFF3", "QLPC", "ZERO")
 SIGS = ("noise", "noise", "walk", "sine", "const", "extreme", "zero")
 AMPS = (1, 5, 100, 127, 2000, 32767)
-FTYPE_NAME = {3: "S16HL", 5: "S16LH", 8: "AU2"}
+FTYPE_NAME = {3: "S16HL", 5: "S16LH", 8: "AU2", 0: "AU1"}
 
 _selftest_done = []
 
@@ -93,7 +94,7 @@ def build(case, extra_steps=None, pad=True, version_byte=None):
     bs0, nmean, maxnlpc = case["blocksize"], case["nmean"], case["maxnlpc"]
     if ftype not in FTYPE_NAME or version not in (1, 2) or not 1 <= nchan <= 8:
         raise HarnessError("bad program header %r" % (case,))
-    au2 = ftype == se.TYPE_AU2
+    au2 = ftype in se.ULAW_TYPES  # (either mu-law type)
     lo, hi = (-128, 127) if au2 else (-32768, 32767)
     nwrap = max(3, maxnlpc)
     rng = np.random.Generator(np.random.PCG64(case["seed"]))
@@ -134,7 +135,7 @@ def build(case, extra_steps=None, pad=True, version_byte=None):
             t0 = len(chans[c])
             x = _signal(rng, "zero" if cmd == "ZERO" else b["sig"], b["amp"], bs, t0, lo, hi)
             if au2:
-                s = [se.au2_outward(int(v)) for v in x]
+                s = [se.ulaw_outward(ftype, int(v)) for v in x]
             else:
                 s = [(int(v) >> shift) << shift for v in x]
             chans[c] += s
@@ -258,7 +259,7 @@ def check_roundtrip(case):
         labels.add("via-path")
         got = _decode("read_signal('utt.sph')", data, True)
         _compare("read_signal('utt.sph')", got, expected)
-    if case["ftype"] == se.TYPE_AU2 and case.get("raw_codes", True):
+    if case["ftype"] in se.ULAW_TYPES and case.get("raw_codes", True):
         # the samples a mu-law stream encodes are the 8-bit codes themselves (two of them, 0x7F and 0xFF, expand
         # to the same linear value 0): a 1-byte dtype returns them unexpanded
         labels.add("raw-codes")
@@ -409,8 +410,8 @@ def _block(draw, bs, nwrap, maxnlpc, au2, cmds=None, sigs=SIGS, amps=AMPS, allow
 @st.composite
 def programs(draw, small=False, allow_long=True):
     version = draw(st.sampled_from([1, 2, 2]))
-    ftype = draw(st.sampled_from([3, 5, 8]))
-    au2 = ftype == 8
+    ftype = draw(st.sampled_from([3, 5, 8, 3, 5, 8, 0]))
+    au2 = ftype in (8, 0)
     nchan = draw(st.sampled_from([1, 1, 2] if small else [1, 1, 2, 2, 3]))
     long = allow_long and not small and draw(st.integers(0, 9)) == 9
     if long:
